@@ -236,7 +236,8 @@ func vpBuildLog(o vpOpts, k *vpConds) (*raftLog, *MemoryStorage) {
 	}
 	off := l.unstable.offset
 	if m > 0 {
-		l.unstable.entries = make([]*pb.Entry, m)
+		// spare capacity, as append-grown slices have: exposes in-place appends
+		l.unstable.entries = make([]*pb.Entry, m, m+2)
 	}
 	for i := 0; i < m; i++ {
 		t := vpU64()
